@@ -37,6 +37,11 @@ def main(names):
     pids = meta["property"] if isinstance(meta["property"], list) else [meta["property"]]
     tier = meta.get("tier", "quick")
     patch = os.path.join(SEEDED, d, "patch.diff")
+    if meta.get("superseded_by"):
+      # a later repair of the unchanged code made this change harmless (its own demonstration passes with the patch applied)
+      rows.append((d, ",".join(pids), f"SUPERSEDED by fix {meta['superseded_by']}", "", 0))
+      print(rows[-1], flush=True)
+      continue
     r = sh(f"git -C /repo apply {patch}")
     if r.returncode != 0:
       rows.append((d, ",".join(pids), "PATCH-DOES-NOT-APPLY", "", 0)); bad += 1
@@ -74,5 +79,6 @@ def main(names):
   with open(path, "w") as f:
     f.write("# Seeded breaking changes vs. checks\n\n| change | property | result | first signature | s |\n|---|---|---|---|---|\n")
     for k in sorted(table): f.write("| " + " | ".join(table[k]) + " |\n")
-  print(f"seeded: {len(rows) - bad}/{len(rows)} detected")
+  sup = sum(1 for r in rows if str(r[2]).startswith("SUPERSEDED"))
+  print(f"seeded: {len(rows) - bad - sup}/{len(rows) - sup} detected" + (f", {sup} superseded" if sup else ""))
   return 1 if bad else 0
